@@ -185,6 +185,17 @@ def handle (op : String) (args : List String) : Option (String × String) :=
   | "u.to_bigint", [x] => do
     let x ← parseLimbs x
     pure ("some " ++ showBigInt (I.fromBiguint x), "some " ++ showBigInt (BigInt.ofInt (val x)))
+  -- api-coverage: trait impls `ToBigUint for BigInt` (same three-arm match as the inherent method),
+  -- `ToBigUint for BigUint` / `ToBigInt for BigInt` (`Some(self.clone())`)
+  | "i.to_biguint_t", [x] => do
+    let x ← parseBigInt x
+    pure (showOpt showLimbs (I.toBiguint x), if x.val < 0 then "none" else "some " ++ showLimbs (ofNat x.val.toNat))
+  | "u.to_biguint_t", [x] => do
+    let x ← parseLimbs x
+    pure ("some " ++ showLimbs x, "some " ++ showLimbs (ofNat (val x)))
+  | "i.to_bigint_t", [x] => do
+    let x ← parseBigInt x
+    pure ("some " ++ showBigInt x, "some " ++ showBigInt (BigInt.ofInt x.val))
   | "i.from_u", [x] => do
     let x ← parseLimbs x
     pure ("ok " ++ showBigInt (I.fromBiguint x), "ok " ++ showBigInt (BigInt.ofInt (val x)))
